@@ -41,6 +41,7 @@ theorem bufferOp_start (cfg : Cfg) (s : AState) (op : Op) : (bufferOp cfg s op).
 /-- **yywrap / end of a source never changes the start condition.** -/
 theorem doWrap_start (s : AState) : (doWrap s).1.start = s.start := by
   unfold doWrap
+  split <;> (try simp)
   split <;> simp
 
 /-- **yyinput never changes the start condition** (including across yywrap). -/
@@ -146,7 +147,8 @@ open AState
 
 @[simp] theorem beginMatch_start (M : Matcher) (cfg : Cfg) (s : AState) (inp : List UInt8) (len rule : Nat)
     (p : List UInt8) : (beginMatch M cfg s inp len rule p).start = s.start := by
-  simp [beginMatch]
+  unfold beginMatch
+  split <;> simp
 
 theorem step_generic_start (M : Matcher) (cfg : Cfg) (s : AState) (ops : List Op) (op : Op)
     (hop : op.setsStart = false)
